@@ -1,11 +1,12 @@
-//! Run one case in a forked child process so that an abort of the code under test (allocation
+//! Run cases in a forked child process so that an abort of the code under test (allocation
 //! failure on a misparsed length, panic inside an `extern "C"` callback, segfault) is captured
-//! as data instead of killing the worker. The worker is single-threaded, so no lock of the
-//! parent is held across `fork`.
+//! as data instead of killing the worker. The child is a small server: it is forked once,
+//! executes one request per line and is re-forked only after it died (fork costs milliseconds
+//! here). The worker is single-threaded, so no lock of the parent is held across `fork`.
 
 use serde::de::DeserializeOwned;
 use serde::Serialize;
-use std::io::Read;
+use std::io::{BufRead, BufReader, Write};
 use std::os::fd::FromRawFd;
 
 #[derive(Clone, Debug)]
@@ -15,122 +16,230 @@ pub enum Iso<T> {
     /// it had streamed before dying
     Crashed { signal: i32, exit: i32, stderr: String, streamed: Vec<String> },
     /// the child did not finish in time (killed)
-    TimedOut { stderr: String },
+    TimedOut { stderr: String, streamed: Vec<String> },
     /// fork / pipe / decode problem of the harness
     Harness(String),
 }
 
-fn read_all_with_deadline(fds: &mut [(i32, Vec<u8>, bool)], timeout_ms: i64) -> bool {
-    // returns false on timeout
-    let start = std::time::Instant::now();
-    loop {
-        let mut pfds: Vec<libc::pollfd> = fds.iter().filter(|f| !f.2).map(|f| libc::pollfd { fd: f.0, events: libc::POLLIN, revents: 0 }).collect();
-        if pfds.is_empty() {
-            return true;
-        }
-        let left = timeout_ms - start.elapsed().as_millis() as i64;
-        if left <= 0 {
-            return false;
-        }
-        let r = unsafe { libc::poll(pfds.as_mut_ptr(), pfds.len() as libc::nfds_t, left.min(1000) as i32) };
-        if r < 0 {
-            continue;
-        }
-        for p in pfds {
-            if p.revents != 0 {
-                let f = fds.iter_mut().find(|f| f.0 == p.fd).unwrap();
-                let mut buf = [0u8; 65536];
-                let n = unsafe { libc::read(p.fd, buf.as_mut_ptr() as *mut libc::c_void, buf.len()) };
-                if n > 0 {
-                    f.1.extend_from_slice(&buf[..n as usize]);
-                } else if n == 0 {
-                    f.2 = true;
-                } else {
-                    let e = std::io::Error::last_os_error();
-                    if e.kind() != std::io::ErrorKind::Interrupted && e.kind() != std::io::ErrorKind::WouldBlock {
-                        f.2 = true;
-                    }
-                }
+struct Child {
+    pid: i32,
+    to_child: i32,
+    from_child: i32,
+    err: i32,
+    out_buf: Vec<u8>,
+    err_buf: Vec<u8>,
+}
+
+pub struct Server<'a, Req, Resp> {
+    handler: Box<dyn Fn(Req, i32) -> Resp + 'a>,
+    child: Option<Child>,
+    pub timeout_ms: i64,
+    pub forks: u64,
+    /// called with the pid of a child that exceeded the timeout, before it is killed; its
+    /// return value is handed out in `TimedOut::stderr`'s place of honour (`examination`)
+    pub on_timeout: Option<Box<dyn FnMut(i32) -> String + 'a>>,
+    pub last_examination: Option<String>,
+}
+
+fn close(fd: i32) {
+    unsafe {
+        libc::close(fd);
+    }
+}
+
+impl Drop for Child {
+    fn drop(&mut self) {
+        close(self.to_child);
+        close(self.from_child);
+        close(self.err);
+        let mut status = 0i32;
+        if self.pid > 0 {
+            unsafe {
+                libc::kill(self.pid, libc::SIGKILL);
+                libc::waitpid(self.pid, &mut status, 0);
             }
         }
     }
 }
 
-/// `f` receives the file descriptor of the result pipe: it may stream lines starting with `E `
-/// to it while it runs; its return value is appended as a final `R ` line.
-pub fn isolated<T: Serialize + DeserializeOwned>(timeout_ms: i64, f: impl FnOnce(i32) -> T) -> Iso<T> {
-    let mut out_p = [0i32; 2];
-    let mut err_p = [0i32; 2];
-    unsafe {
-        if libc::pipe(out_p.as_mut_ptr()) != 0 || libc::pipe(err_p.as_mut_ptr()) != 0 {
-            return Iso::Harness("pipe failed".into());
-        }
+impl<'a, Req: Serialize + DeserializeOwned, Resp: Serialize + DeserializeOwned> Server<'a, Req, Resp> {
+    /// `handler(request, sink_fd)`: may stream lines starting with `E ` to `sink_fd` while running
+    pub fn new(timeout_ms: i64, handler: impl Fn(Req, i32) -> Resp + 'a) -> Self {
+        Server { handler: Box::new(handler), child: None, timeout_ms, forks: 0, on_timeout: None, last_examination: None }
     }
-    let pid = unsafe { libc::fork() };
-    if pid < 0 {
-        return Iso::Harness("fork failed".into());
-    }
-    if pid == 0 {
-        // child
+
+    fn spawn(&mut self) -> Result<(), String> {
+        let mut req_p = [0i32; 2];
+        let mut out_p = [0i32; 2];
+        let mut err_p = [0i32; 2];
         unsafe {
-            libc::close(out_p[0]);
-            libc::close(err_p[0]);
-            libc::dup2(err_p[1], 2);
-            libc::close(err_p[1]);
-            // a misparsed length must fail fast instead of zero-filling gigabytes
-            let lim = libc::rlimit { rlim_cur: 3 << 30, rlim_max: 3 << 30 };
-            libc::setrlimit(libc::RLIMIT_AS, &lim);
+            if libc::pipe(req_p.as_mut_ptr()) != 0 || libc::pipe(out_p.as_mut_ptr()) != 0 || libc::pipe(err_p.as_mut_ptr()) != 0 {
+                return Err("pipe failed".into());
+            }
         }
-        let v = f(out_p[1]);
-        let mut bytes = b"R ".to_vec();
-        bytes.extend(serde_json::to_vec(&v).unwrap_or_default());
-        bytes.push(b'\n');
+        let pid = unsafe { libc::fork() };
+        if pid < 0 {
+            return Err("fork failed".into());
+        }
+        if pid == 0 {
+            unsafe {
+                libc::close(req_p[1]);
+                libc::close(out_p[0]);
+                libc::close(err_p[0]);
+                libc::dup2(err_p[1], 2);
+                libc::close(err_p[1]);
+                // a misparsed length must fail fast instead of zero-filling gigabytes
+                // (limit = current address space + 64 MiB; cases need kilobytes)
+                let pages: u64 = std::fs::read_to_string("/proc/self/statm").ok().and_then(|s| s.split(' ').next().and_then(|x| x.parse().ok())).unwrap_or(65536);
+                let cur = pages * 4096 + (64 << 20);
+                let lim = libc::rlimit { rlim_cur: cur, rlim_max: cur };
+                libc::setrlimit(libc::RLIMIT_AS, &lim);
+            }
+            let inp = unsafe { std::fs::File::from_raw_fd(req_p[0]) };
+            let mut outp = std::mem::ManuallyDrop::new(unsafe { std::fs::File::from_raw_fd(out_p[1]) });
+            for line in BufReader::new(inp).lines() {
+                let Ok(line) = line else { break };
+                let Ok(req) = serde_json::from_str::<Req>(&line) else {
+                    let _ = writeln!(outp, "X bad request");
+                    continue;
+                };
+                let resp = (self.handler)(req, out_p[1]);
+                let mut bytes = b"R ".to_vec();
+                bytes.extend(serde_json::to_vec(&resp).unwrap_or_default());
+                bytes.push(b'\n');
+                if outp.write_all(&bytes).is_err() {
+                    break;
+                }
+            }
+            unsafe { libc::_exit(0) };
+        }
+        close(req_p[0]);
+        close(out_p[1]);
+        close(err_p[1]);
+        self.forks += 1;
+        self.child = Some(Child { pid, to_child: req_p[1], from_child: out_p[0], err: err_p[0], out_buf: vec![], err_buf: vec![] });
+        Ok(())
+    }
+
+    pub fn call(&mut self, req: &Req) -> Iso<Resp> {
+        if self.child.is_none() {
+            if let Err(e) = self.spawn() {
+                return Iso::Harness(e);
+            }
+        }
+        let timeout_ms = self.timeout_ms;
+        let ch = self.child.as_mut().unwrap();
+        ch.out_buf.clear();
+        ch.err_buf.clear();
+        let mut line = serde_json::to_vec(req).unwrap();
+        line.push(b'\n');
         let mut off = 0;
-        while off < bytes.len() {
-            let n = unsafe { libc::write(out_p[1], bytes[off..].as_ptr() as *const libc::c_void, bytes.len() - off) };
+        while off < line.len() {
+            let n = unsafe { libc::write(ch.to_child, line[off..].as_ptr() as *const libc::c_void, line.len() - off) };
             if n <= 0 {
                 break;
             }
             off += n as usize;
         }
-        unsafe { libc::_exit(0) };
-    }
-    unsafe {
-        libc::close(out_p[1]);
-        libc::close(err_p[1]);
-    }
-    let mut fds = [(out_p[0], Vec::new(), false), (err_p[0], Vec::new(), false)];
-    let ok = read_all_with_deadline(&mut fds, timeout_ms);
-    if !ok {
-        unsafe { libc::kill(pid, libc::SIGKILL) };
-    }
-    let mut status = 0i32;
-    unsafe { libc::waitpid(pid, &mut status, 0) };
-    unsafe {
-        // close through File to keep the fd handling uniform
-        drop(std::fs::File::from_raw_fd(out_p[0]));
-        drop(std::fs::File::from_raw_fd(err_p[0]));
-    }
-    let stderr: String = String::from_utf8_lossy(&fds[1].1).chars().rev().take(600).collect::<Vec<_>>().into_iter().rev().collect();
-    if !ok {
-        return Iso::TimedOut { stderr };
-    }
-    let text = String::from_utf8_lossy(&fds[0].1).to_string();
-    let streamed: Vec<String> = text.lines().filter_map(|l| l.strip_prefix("E ")).map(|l| l.to_string()).collect();
-    if libc::WIFSIGNALED(status) {
-        return Iso::Crashed { signal: libc::WTERMSIG(status), exit: 0, stderr, streamed };
-    }
-    if libc::WIFEXITED(status) && libc::WEXITSTATUS(status) != 0 {
-        return Iso::Crashed { signal: 0, exit: libc::WEXITSTATUS(status), stderr, streamed };
-    }
-    let Some(r) = text.lines().rev().find_map(|l| l.strip_prefix("R ")) else {
-        return Iso::Harness(format!("child sent no result ({} bytes)", text.len()));
-    };
-    match serde_json::from_str::<T>(r) {
-        Ok(v) => Iso::Done(v),
-        Err(e) => Iso::Harness(format!("cannot decode child result ({} bytes): {}", r.len(), e)),
+        let start = std::time::Instant::now();
+        let mut eof = false;
+        let mut timed_out = false;
+        let mut result: Option<String> = None;
+        let mut streamed: Vec<String> = vec![];
+        let mut scanned = 0usize;
+        'outer: loop {
+            // complete lines received so far
+            while let Some(pos) = ch.out_buf[scanned..].iter().position(|b| *b == b'\n') {
+                let l = String::from_utf8_lossy(&ch.out_buf[scanned..scanned + pos]).to_string();
+                scanned += pos + 1;
+                if let Some(e) = l.strip_prefix("E ") {
+                    streamed.push(e.to_string());
+                } else if let Some(r) = l.strip_prefix("R ") {
+                    result = Some(r.to_string());
+                    break 'outer;
+                } else if l.starts_with("X ") {
+                    return Iso::Harness(l);
+                }
+            }
+            if eof {
+                break;
+            }
+            let left = timeout_ms - start.elapsed().as_millis() as i64;
+            if left <= 0 {
+                timed_out = true;
+                break;
+            }
+            let mut pfds = [libc::pollfd { fd: ch.from_child, events: libc::POLLIN, revents: 0 }, libc::pollfd { fd: ch.err, events: libc::POLLIN, revents: 0 }];
+            let r = unsafe { libc::poll(pfds.as_mut_ptr(), 2, left.min(1000) as i32) };
+            if r <= 0 {
+                continue;
+            }
+            let mut buf = [0u8; 65536];
+            if pfds[1].revents != 0 {
+                let n = unsafe { libc::read(ch.err, buf.as_mut_ptr() as *mut libc::c_void, buf.len()) };
+                if n > 0 {
+                    ch.err_buf.extend_from_slice(&buf[..n as usize]);
+                }
+            }
+            if pfds[0].revents != 0 {
+                let n = unsafe { libc::read(ch.from_child, buf.as_mut_ptr() as *mut libc::c_void, buf.len()) };
+                if n > 0 {
+                    ch.out_buf.extend_from_slice(&buf[..n as usize]);
+                } else if n == 0 {
+                    eof = true;
+                }
+            }
+        }
+        if let Some(r) = result {
+            return match serde_json::from_str::<Resp>(&r) {
+                Ok(v) => Iso::Done(v),
+                Err(e) => Iso::Harness(format!("cannot decode child result ({} bytes): {}", r.len(), e)),
+            };
+        }
+        // the child died or hangs: collect what it wrote to stderr, reap it
+        let mut ch = self.child.take().unwrap();
+        if timed_out {
+            if let Some(h) = self.on_timeout.as_mut() {
+                self.last_examination = Some(h(ch.pid));
+            }
+            unsafe { libc::kill(ch.pid, libc::SIGKILL) };
+        }
+        let mut status = 0i32;
+        unsafe { libc::waitpid(ch.pid, &mut status, 0) };
+        // drain stderr (non-blocking: the writer is gone)
+        loop {
+            let mut pfd = [libc::pollfd { fd: ch.err, events: libc::POLLIN, revents: 0 }];
+            let r = unsafe { libc::poll(pfd.as_mut_ptr(), 1, 0) };
+            if r <= 0 {
+                break;
+            }
+            let mut buf = [0u8; 65536];
+            let n = unsafe { libc::read(ch.err, buf.as_mut_ptr() as *mut libc::c_void, buf.len()) };
+            if n <= 0 {
+                break;
+            }
+            ch.err_buf.extend_from_slice(&buf[..n as usize]);
+        }
+        let stderr: String = String::from_utf8_lossy(&ch.err_buf).chars().rev().take(600).collect::<Vec<_>>().into_iter().rev().collect();
+        // already reaped: prevent the second kill/wait in Drop from touching a recycled pid
+        ch.pid = -1;
+        close(ch.to_child);
+        close(ch.from_child);
+        close(ch.err);
+        std::mem::forget(ch);
+        if timed_out {
+            return Iso::TimedOut { stderr, streamed };
+        }
+        if libc::WIFSIGNALED(status) {
+            Iso::Crashed { signal: libc::WTERMSIG(status), exit: 0, stderr, streamed }
+        } else {
+            Iso::Crashed { signal: 0, exit: libc::WEXITSTATUS(status), stderr, streamed }
+        }
     }
 }
 
-#[allow(dead_code)]
-fn _unused(_: &mut dyn Read) {}
+/// One-shot variant: fork, run `f`, return its value.
+pub fn isolated<T: Serialize + DeserializeOwned>(timeout_ms: i64, f: impl Fn(i32) -> T) -> Iso<T> {
+    let mut s: Server<(), T> = Server::new(timeout_ms, |_, fd| f(fd));
+    s.call(&())
+}
